@@ -180,7 +180,7 @@ def run(tier, wd):
     rnd = random.Random(core.seed())
     q = tier == "quick"
     cases, decls = [], []
-    for _ in range(120 if q else 3000):
+    for _ in range(120 if q else 8000):
         nodes = rand_tree(rnd, rnd.choice([0, 1, 2, 3]))
         # every command of the tree, short and long help, via the method and via --help; sometimes with the environment set
         paths = [[0]]
